@@ -163,11 +163,11 @@ def const_val(o):
     return None
 
 
-def must_pass(body, src, dsts, through, avoid_edges=frozenset(), include_start=True):
+def must_pass(body, src, dsts, through, avoid_edges=frozenset(), include_start=True, precise=False):
     """True iff every path src -> any of dsts passes a position in `through` (or an edge in avoid_edges
     which is treated as 'cut', i.e. paths over such edges are considered discharged elsewhere)."""
     through = set(through)
-    if getattr(body, 'inlined_ids', None):
+    if getattr(body, 'inlined_ids', None) or precise:
         seen = body.precise_walk(src, stops=frozenset(through), include_start=include_start, skip_edges=frozenset(avoid_edges))
         return not [d for d in dsts if d in seen and d not in through]
     seen = set()
